@@ -72,6 +72,7 @@ def _template_cases():
                 yield ("loop", p, {"count": 0}, [None, list(range(n - 1, -1, -1))])
     yield ("nested", T.nested_fanout(), ins, [None, [3, 2, 1, 0]])
     yield ("nested2", T.nested_depth(2), {"x": ["prov", "x"]}, [None])
+    yield ("two-nested", T.two_nested(), {"x": ["prov", "x"]}, [None, [2, 1, 0]])
     for mode in ("zip",):
         p = T.mapped_node(mode)
         yield ("mapped", p, {"e0": ["prov", "e0"], "x": [["i", 0], ["i", 1], ["i", 2]]}, [None, [2, 1, 0]])
